@@ -288,6 +288,16 @@ func (c *evalCtx) evalField(base EV, name string, e *Expr) EV {
 	if !ok {
 		return c.fail("field .%s of a non-struct (%v) in %s", name, base.T, e)
 	}
+	if base.V.K == VStruct {
+		// a struct value (e.g. a function result): select the field from the value
+		s, _ := structOf(stT)
+		for i := 0; i < s.NumFields() && i < len(base.V.Fs); i++ {
+			if s.Field(i).Name() == name {
+				return EV{V: base.V.Fs[i], T: s.Field(i).Type()}
+			}
+		}
+		return c.fail("no field %s in struct value (%s)", name, e)
+	}
 	ref := c.int(base, e)
 	obj, index, _ := types.LookupFieldOrMethod(stT, true, c.pkgOfType(stT), name)
 	fld, isVar := obj.(*types.Var)
